@@ -7,7 +7,9 @@
    [gate_run] a history of checks interleaved with Consume* calls on the processors sharing the
    limiter and MustRefuse calls of the extension; [life_run] a Start/Shutdown history.
    The limit predicates, checker constructors and Validate are Generated.MemLimiter18 (T1). *)
-From Verif Require Import Common.Base Generated.MemLimiter18 C18.Model C18.Proofs C18.ProofsShare C18.ProofsSys C18.ProofsFine.
+From Verif Require Import Common.Base Generated.MemLimiter18 C18.Model C18.Proofs C18.ProofsShare C18.ProofsSys C18.ProofsFine C18.ProofsTotal
+  Generated.C18ApiExt Generated.C18ApiProc C18.Audit C18.Obligations.
+From Coq Require String.
 Local Open Scope Z_scope.
 
 (* Clause 1.  After EVERY check of EVERY history (any readings, any GC effects, any clock) the
@@ -232,6 +234,79 @@ Theorem fine_refines_sys : forall l t0 os,
   f_life (fst (frun l (fsys0 t0) os)) = s_life c /\ f_st (fst (frun l (fsys0 t0) os)) = s_st c.
 Proof. exact (fun l t0 os => fine_refines_l l os (fsys0 t0) (fsys0_inv t0)). Qed.
 
+(* Percentage mode with the total-memory reading as an INPUT (iruntime.TotalMemory over the
+   results of the cgroup v1/v2 readers and /proc/meminfo): for every validated configuration and
+   every environment whose used quota and meminfo total are in [0, 2^64/100), the limits are well
+   formed and are exactly pct * total / 100. *)
+Theorem limits_wellformed_total_memory : forall c e l,
+  validate c = None -> config_in_range c -> env_bounded e ->
+  new_limiter c (total_memory e) = Some l ->
+  wf l /\
+  (c_limit_mib c = 0 -> exists t, total_memory e = Some t /\
+     l_limit l = c_limit_pct c * t / 100 /\
+     l_spike l = (if c_spike_pct c * t / 100 =? 0 then l_limit l / 5 else c_spike_pct c * t / 100)).
+Proof. exact limits_wellformed_total_memory_l. Qed.
+
+Theorem total_memory_in_bounds : forall e t, env_bounded e -> total_memory e = Some t -> 0 <= t /\ 100 * t < U64.
+Proof. exact total_memory_bounded. Qed.
+
+(* when TotalMemory fails (and NewMemoryLimiter with it, in percentage mode) *)
+Theorem total_memory_error_cases : forall e, total_memory e = None <->
+  selected_quota e = None \/ selected_quota e = Some QErr \/
+  (exists q d, selected_quota e = Some (QRes q d) /\ (q = unlimitedMemorySize \/ d = false) /\ e_meminfo e = None).
+Proof. exact total_memory_none. Qed.
+
+(* cgroup v1 never reports a non-positive quota as defined; cgroup v2 reports ANY integer found in
+   memory.max as defined ... *)
+Theorem quota_readers : forall q,
+  (forall ex rd, memory_quota_v1 ex rd = QRes q true -> 0 < q) /\
+  (forall f, memory_quota_v2 f = QRes q true <-> f = V2Int q).
+Proof. exact (fun q => conj (fun ex rd => memory_quota_v1_positive ex rd q) (fun f => memory_quota_v2_defined f q)). Qed.
+
+(* ... so outside env_bounded the statement is FALSE: memory.max = -1 (never written by the
+   kernel) becomes 2^64-1 bytes of total memory by the uint64 conversion, the percentage products
+   wrap and a validated 17 % / 16 % configuration gets limit < spike.  Documented, not a finding. *)
+Theorem limits_wellformed_total_memory_refuted :
+  total_memory neg_env = Some 18446744073709551615 /\
+  validate neg_cfg = None /\ config_in_range neg_cfg /\
+  exists l, new_limiter neg_cfg (total_memory neg_env) = Some l /\ l_limit l < l_spike l.
+Proof. exact total_memory_negative_quota_l. Qed.
+
+(* Single writer: mustRefuse / lastGCDone change only when the one check in flight completes. *)
+Theorem fine_only_checker_writes : forall l s o,
+  f_st (fst (fstep l s o)) <> f_st s ->
+  exists t, f_fly s = Some t /\ f_st (fst (fstep l s o)) = fst (check l (f_st s) t) /\
+            (o = FEnd \/ (o = FShutdown /\ refcnt (f_life s) = 1)).
+Proof. exact fine_only_checker_writes_l. Qed.
+
+(* ---- translator obligations: hand-written model pieces = what T1 reads from the source NOW ---- *)
+Theorem ob_must_refuse : forall b, ml_must_refuse b = b /\ ext_must_refuse (ml_must_refuse b) = b.
+Proof. exact ob_must_refuse_l. Qed.
+
+Theorem ob_queries : forall l s,
+  snd (gate_step l s GExtMustRefuse) = OExt (ext_must_refuse (ml_must_refuse (refuse s))) /\
+  (forall lf, snd (sys_step l (mkSys lf s) SQuery) = SQueried (ml_must_refuse (refuse s))) /\
+  (forall lf fl, snd (fstep l (mkF lf s fl) FQuery) = FQueried (ml_must_refuse (refuse s))).
+Proof. exact ob_queries_l. Qed.
+
+Theorem ob_default_config :
+  c_soft_int default_config = new_default_config /\
+  default_config = mkConfig 0 new_default_config 0 0 0 0 0.
+Proof. exact ob_default_config_l. Qed.
+
+Theorem ob_limiter_methods : map fst limiter_methods = ml_methods.
+Proof. exact ob_limiter_methods_l. Qed.
+
+Theorem ob_processor_methods : processor_methods = mlp_methods.
+Proof. exact ob_processor_methods_l. Qed.
+
+Theorem ob_extension_methods : extension_methods = ext_methods.
+Proof. exact ob_extension_methods_l. Qed.
+
+Theorem ob_single_writers :
+  writers_of_must_refuse = only_check_mem_limits /\ writers_of_last_gc = only_do_gc.
+Proof. exact ob_writers_l. Qed.
+
 Print Assumptions refuse_iff_soft.
 Print Assumptions refuse_iff_soft_validated.
 Print Assumptions refuse_is_above_soft.
@@ -258,3 +333,16 @@ Print Assumptions fine_stopped_after_last_shutdown.
 Print Assumptions fine_frozen_without_users.
 Print Assumptions fine_last_shutdown_completes_check.
 Print Assumptions fine_refines_sys.
+Print Assumptions limits_wellformed_total_memory.
+Print Assumptions total_memory_in_bounds.
+Print Assumptions total_memory_error_cases.
+Print Assumptions quota_readers.
+Print Assumptions limits_wellformed_total_memory_refuted.
+Print Assumptions fine_only_checker_writes.
+Print Assumptions ob_must_refuse.
+Print Assumptions ob_queries.
+Print Assumptions ob_default_config.
+Print Assumptions ob_limiter_methods.
+Print Assumptions ob_processor_methods.
+Print Assumptions ob_extension_methods.
+Print Assumptions ob_single_writers.
